@@ -86,10 +86,18 @@ func c02Kinds(seed int64) []unitKind {
 		{Name: "pes-unbounded-all-ff", Make: func(_, _ int) SUnit { return PESUnit(0x100, 0xe0, hostilePayload(10, 250), 6, false) }},
 		// private data on a PID that is neither PSI nor PES: the unit starts with bytes that are close to, but not,
 		// the PES start code 00 00 01. Nothing is delivered for it and nothing is reported as an error.
-		{Name: "private-data-5-0-1", Make: func(_, _ int) SUnit { return privateUnit(0x102, []byte{0x05, 0x00, 0x01, 0xe0, 0x00, 0x00, 0x80, 0x00, 0x00}, 300) }},
-		{Name: "private-data-0-5-1", Make: func(_, _ int) SUnit { return privateUnit(0x102, []byte{0x00, 0x05, 0x01, 0xe0, 0x00, 0x00, 0x80, 0x00, 0x00}, 300) }},
-		{Name: "private-data-0-0-2", Make: func(_, _ int) SUnit { return privateUnit(0x102, []byte{0x00, 0x00, 0x02, 0xe0, 0x00, 0x00, 0x80, 0x00, 0x00}, 200) }},
-		{Name: "private-data-0-1-0", Make: func(_, _ int) SUnit { return privateUnit(0x102, []byte{0x00, 0x01, 0x00, 0x00, 0x01, 0xe0, 0x00, 0x00}, 190) }},
+		{Name: "private-data-5-0-1", Make: func(_, _ int) SUnit {
+			return privateUnit(0x102, []byte{0x05, 0x00, 0x01, 0xe0, 0x00, 0x00, 0x80, 0x00, 0x00}, 300)
+		}},
+		{Name: "private-data-0-5-1", Make: func(_, _ int) SUnit {
+			return privateUnit(0x102, []byte{0x00, 0x05, 0x01, 0xe0, 0x00, 0x00, 0x80, 0x00, 0x00}, 300)
+		}},
+		{Name: "private-data-0-0-2", Make: func(_, _ int) SUnit {
+			return privateUnit(0x102, []byte{0x00, 0x00, 0x02, 0xe0, 0x00, 0x00, 0x80, 0x00, 0x00}, 200)
+		}},
+		{Name: "private-data-0-1-0", Make: func(_, _ int) SUnit {
+			return privateUnit(0x102, []byte{0x00, 0x01, 0x00, 0x00, 0x01, 0xe0, 0x00, 0x00}, 190)
+		}},
 		{Name: "private-data-2-bytes", Make: func(_, _ int) SUnit { return privateUnit(0x102, []byte{0x00, 0x00}, 0) }},
 		{Name: "pes-with-af", Make: func(_, _ int) SUnit {
 			u := PESUnit(0x100, 0xe0, pesPayload(13, 380, seed), 2, false)
